@@ -373,6 +373,8 @@ def run(prog, rep):
 
     first_row_rule(prog, rep, "ROW-1")
     present_key_rule(prog, rep, "KEY-2")
+    keep_children_rule(prog, rep, "KEEP-1")
+    path_only_on_str_rule(prog, rep, an, "KIND-1")
 
     # --------------------------------------------------------------- REGEX-1
     regex_rule(prog, rep, "REGEX-1")
@@ -512,3 +514,95 @@ def present_key_rule(prog, rep, rule="KEY-2"):
                               % (f.short, d, key, key, d, seen_atoms[-3:]), where(f, e),
                               witness="a Section dictionary that lists its children under another accepted spelling of the key")
     rep.note("%s: %d literal lookups in iterated input dictionaries" % (rule, n))
+
+
+def keep_children_rule(prog, rep, rule="KEEP-1"):
+    """lenient mode keeps the valid parts: a refused creation of the container does not drop the parsed children"""
+    from ..logic import reach_avoiding
+    rep.rule(rule, "XMLReader.parse_tag: after the handler of the keyword creation `fmt.create(**arguments)` caught a refusal (lenient mode: "
+                   "self.error only warns) every path to a return still passes the decision about the parsed children - the test of "
+                   "insert_children or the loop that appends them: the stand-in object receives the valid children")
+    f = prog.func("tools.xmlparser.XMLReader.parse_tag")
+    n_sites = 0
+    for h in private_closure(f):
+        g = build_cfg(h)
+        creates = [n for n in g.nodes for r in n.expr_roots() for c in calls_in(r)
+                   if isinstance(c.func, ast.Attribute) and c.func.attr == "create" and any(k.arg is None for k in c.keywords)]
+        if not creates:
+            continue
+        decisions = set()
+        for n in g.nodes:
+            if n.kind == "branch" and any(isinstance(y, ast.Name) and y.id == "insert_children" for y in ast.walk(n.ast.test)):
+                decisions.add(n.id)
+            if n.kind == "for" and any(isinstance(y, ast.Call) and isinstance(y.func, ast.Attribute) and y.func.attr in ("append", "insert", "extend", "_insert_children")
+                                       for b in n.ast.body for y in ast.walk(b)):
+                decisions.add(n.id)
+            if any(isinstance(c.func, ast.Attribute) and c.func.attr.startswith("_") and "child" in c.func.attr for r in n.expr_roots() for c in calls_in(r)):
+                decisions.add(n.id)       # a private helper that inserts the children
+        for cn in creates:
+            for d in enclosing_handlers(g, cn):
+                for k, hn in d.succ:
+                    if k != "except":
+                        continue
+                    n_sites += 1
+                    lost = any(reach_avoiding(g, hn, p, lambda src, kind, dst: dst.id in decisions, skip_kinds=("exc",))
+                               for k0, p in g.exit.pred if k0 != "exc") and hn.id not in decisions
+                    if lost and h is not f and not decisions:
+                        # the creation (with its handler) lives in a private helper that hands the object back: the children are inserted by its caller
+                        lost = False
+                        for caller in private_closure(f):
+                            cg = build_cfg(caller)
+                            cdec = set()
+                            for n in cg.nodes:
+                                if n.kind == "branch" and any(isinstance(y, ast.Name) and y.id == "insert_children" for y in ast.walk(n.ast.test)):
+                                    cdec.add(n.id)
+                                if n.kind == "for" and any(isinstance(y, ast.Call) and isinstance(y.func, ast.Attribute)
+                                                           and y.func.attr in ("append", "insert", "extend", "_insert_children") for b in n.ast.body for y in ast.walk(b)):
+                                    cdec.add(n.id)
+                                if any(isinstance(c.func, ast.Attribute) and c.func.attr.startswith("_") and "child" in c.func.attr
+                                       for r in n.expr_roots() for c in calls_in(r)):
+                                    cdec.add(n.id)
+                            for n in cg.nodes:
+                                if any(isinstance(c.func, ast.Attribute) and c.func.attr == h.name for r in n.expr_roots() for c in calls_in(r)):
+                                    if n.id not in cdec and any(reach_avoiding(cg, n, p, lambda src, kind, dst: dst.id in cdec, skip_kinds=("exc",))
+                                                                for k0, p in cg.exit.pred if k0 != "exc"):
+                                        lost = True
+                    rep.check(not lost, rule, "%s: children survive a refused creation" % h.short, "every path from the handler passes the child insertion",
+                              "%s can return from the handler of the refused creation without inserting the parsed children: in lenient mode a "
+                              "container with one bad attribute comes back empty" % h.short, where(h, hn.ast) if hn.ast is not None else h.where,
+                              witness="<odML> with an unparsable <date> read with ignore_errors=True: an empty Document and one warning")
+    rep.floor(rule, n_sites, 1, "handlers around the keyword creation in parse_tag")
+
+
+_PATH_FUNCS = ("os.path.basename", "os.path.dirname", "os.path.split", "os.path.splitext", "os.path.join", "os.path.exists", "os.path.isfile",
+               "os.path.getsize", "os.path.abspath", "os.path.normpath")
+
+
+def path_only_on_str_rule(prog, rep, an, rule="KIND-1"):
+    """a source that may be an open file is treated as a path only where it is known to be text"""
+    from ..symtext import Expander, _guards_at
+    from ..model import canonical_name
+    rep.rule(rule, "XMLReader.from_file is handed file paths and open files (Terminologies._load passes the cache file object; the kind inference "
+                   "finds both at its call sites): every os.path function applied to that parameter lies on paths that know isinstance(<it>, str). "
+                   "Elsewhere - in particular inside the handler that turns a syntax error into ParserException - it raises TypeError for a file object")
+    f = prog.func("tools.xmlparser.XMLReader.from_file")
+    src = f.params[1]
+    kinds = an.k.param_kinds.get((f.qualname, src), set())
+    rep.check("file" in kinds or "?" in kinds, rule, "from_file receives open files as well as paths", str(sorted(kinds)),
+              "the kind inference no longer finds a file object among the arguments of from_file (%s): the rule has nothing to protect" % sorted(kinds), f.where)
+    n = 0
+    for h in private_closure(f):
+        g = build_cfg(h)
+        x = Expander(h, g)
+        for node in g.nodes:
+            for r in node.expr_roots():
+                for c in calls_in(r):
+                    if canonical_name(prog, h, c.func) in _PATH_FUNCS and any(isinstance(a, ast.Name) and a.id == src for a in c.args) and h is f:
+                        n += 1
+                        atoms = _guards_at(x, node)
+                        good = any(t in ("isinstance(%s, str)" % src, "isinstance(%s, (str,))" % src) and pol for t, pol in atoms)
+                        rep.check(good, rule, "%s: %s(%s)" % (h.short, canonical_name(prog, h, c.func), src), "under isinstance(%s, str)" % src,
+                                  "%s applies %s to %s on a path that does not know it to be text: for the open file the loaders pass it raises TypeError "
+                                  "(inside an except block: instead of the ParserException being built)" % (h.short, canonical_name(prog, h, c.func), src),
+                                  where(h, c), witness="terminology.load(url) of a resource that is not well-formed XML: TypeError instead of None")
+    rep.note("%s: %d path functions applied to the source of from_file" % (rule, n))
